@@ -27,19 +27,17 @@ if __name__ == "__main__":
                 d = os.path.join(base, f"ro{i}")
                 os.makedirs(d)
                 ro.append(d)
-            kw = {}
-            if cfg["worker"] == "cf":
-                kw["n_procs"] = cfg.get("n_procs", 2)
-            if cfg.get("max_concurrent"):
-                kw["max_concurrent"] = cfg["max_concurrent"]
+            from harness.props.C29 import make_submitter
 
             def mk_sub(root):
-                return Submitter(cache_root=root, worker=cfg["worker"], readonly_caches=ro or None,
-                                 audit_flags=getattr(AuditFlag, cfg.get("audit", "NONE")), **kw)
+                return make_submitter(cfg, root, ro)
             task = build_task(c["task"], base)
             # reference: the same job, never shipped
-            with mk_sub(os.path.join(base, "ref")) as sub:
-                ref = sub(build_task(c["task"], base), raise_errors=False)
+            runnable = cfg.get("runnable", True)
+            ref = None
+            if runnable:
+                with mk_sub(os.path.join(base, "ref")) as sub:
+                    ref = sub(build_task(c["task"], base), raise_errors=False)
             rec["ev"].append({"a": "Project", "where": "parent", "p": None})
             sub = mk_sub(os.path.join(base, "cache"))
             job = Job(task, submitter=sub, name="main")
@@ -50,7 +48,7 @@ if __name__ == "__main__":
                 cp.dump(job, f)
             rec["ev"].append({"a": "Ship", "where": "parent", "p": "", "out": ""})
             outp = os.path.join(base, "child.json")
-            pr = subprocess.run([core.PY, "-m", "harness.ship_child", pkl, outp, base], env=core.child_env(hooks=True),
+            pr = subprocess.run([core.PY, "-m", "harness.ship_child", pkl, outp, base, "run" if runnable else "ship-only"], env=core.child_env(hooks=True),
                                 capture_output=True, text=True, timeout=600)
             if not os.path.exists(outp):
                 rec["machinery"] = pr.stderr[-600:]
@@ -59,6 +57,11 @@ if __name__ == "__main__":
                 rec["ev"].append({"a": "Project", "where": "child", "p": ch["proj"], "out": ""})
                 if "err" in ch:
                     rec["child_err"] = ch["err"]
+                if not runnable:
+                    rec["ev"].append({"a": "Ship", "where": "child", "p": "", "out": ""})
+                    rec["ev"].append({"a": "Project", "where": "parent", "p": project(job), "out": ""})
+                    results.append(rec)
+                    continue
                 rec["ev"].append({"a": "Run", "where": "child", "p": "", "out": json.dumps(ch.get("out"), sort_keys=True)})
                 rec["ev"].append({"a": "Ship", "where": "child", "p": "", "out": ""})
                 r = job.result()
@@ -69,5 +72,8 @@ if __name__ == "__main__":
         except BaseException as e:  # noqa
             import traceback
             rec["machinery"] = traceback.format_exc()[-800:]
+        finally:
+            import shutil
+            shutil.rmtree(base, ignore_errors=True)
         results.append(rec)
     json.dump(results, open(sys.argv[2], "w"), default=str)
